@@ -32,6 +32,7 @@ pub fn requirements(tier: Tier) -> Vec<(&'static str, u64)> {
         ("seen:backslash-kept", 100),
         ("namespace-segments-compared", 50_000),
         ("subpath-segments-compared", 50_000),
+        ("deep-paths", 3_000),
     ]
 }
 
@@ -292,6 +293,28 @@ pub fn run(ctx: &mut Ctx) {
     }
     if ctx.worker == 0 {
         ctx.st.exhaustive.push(json!({"name": format!("every sequence of <= {maxn} pieces from {PIECES:?} joined by '/', as namespace and as subpath, bare and with other components; String + SmallString/Purl"), "size": total * 4, "completed": true}));
+    }
+    // deep paths: 1..=140 pieces followed by a tail with empty / dot pieces (a depth cap or a
+    // chunked scan would show only beyond some number of pieces)
+    let tails = ["x", "x/../../y", "x//y", "./x", "../x", "x/.", "x/%2e%2e/y", "x/%2F/y", ""];
+    let mut idx = 0u64;
+    for depth in 1..=140usize {
+        for (ti, tail) in tails.iter().enumerate() {
+            idx += 1;
+            if !ctx.mine(idx) {
+                continue;
+            }
+            let body = match ti % 3 {
+                0 => "d/".repeat(depth),
+                1 => (0..depth).map(|i| format!("s{i}/")).collect::<String>(),
+                _ => "d/./".repeat(depth),
+            };
+            for s in [format!("pkg:t/{body}{tail}/n"), format!("pkg:t/n#{body}{tail}"), format!("pkg:npm/{body}{tail}/n@1?k=v#{body}{tail}")] {
+                ctx.st.count("deep-paths");
+                one(ctx, "String", &s);
+                one(ctx, "Purl", &s);
+            }
+        }
     }
     // random: legal spellings, mutated corpus, the token language in the subpath / namespace contexts
     let mut r = ctx.rng("c07.g2");
